@@ -753,3 +753,43 @@ Theorem history_ok_sound a b n : history_ok a b n = true <-> a = b /\ n = 0.
 Proof.
   unfold history_ok. rewrite andb_true_iff, files_eqb_eq, Nat.eqb_eq. tauto.
 Qed.
+
+(* ---- the template executors: same settings, same template, whatever the ConfigMap said before *)
+Theorem executor_history_independent (h : list (option string)) s cur :
+  fold_left exec_step (h ++ [s]) cur = s.
+Proof. rewrite fold_left_app. reflexivity. Qed.
+
+(* a memo is harmless exactly when every revert clears it *)
+Definition memo_inv (st : option string * string) : Prop :=
+  match fst st with Some t => snd st = t | None => snd st = "" end.
+
+Lemma memo_step_inv st s : memo_inv st -> memo_inv (memo_step true st s).
+Proof.
+  intros I. destruct s as [t|]; cbn; [|reflexivity].
+  destruct (negb (String.eqb (snd st) "") && String.eqb (snd st) t); [exact I|reflexivity].
+Qed.
+
+Lemma memo_step_last st s : memo_inv st -> s <> Some "" -> fst (memo_step true st s) = s.
+Proof.
+  intros I Hne. destruct s as [t|]; cbn; [|reflexivity].
+  destruct (negb (String.eqb (snd st) "") && String.eqb (snd st) t) eqn:E; [|reflexivity].
+  apply andb_true_iff in E. destruct E as [E1 E2]. apply String.eqb_eq in E2.
+  unfold memo_inv in I. destruct (fst st) as [t'|] eqn:F.
+  - rewrite I in E2. subst. reflexivity.
+  - rewrite I in E1. discriminate E1.
+Qed.
+
+Theorem memo_executor_clearing_history_independent h s :
+  s <> Some "" ->
+  fst (fold_left (memo_step true) (h ++ [s]) (None, "")) = s.
+Proof.
+  intros Hne. rewrite fold_left_app. cbn. apply memo_step_last; [|exact Hne].
+  assert (G : forall l st, memo_inv st -> memo_inv (fold_left (memo_step true) l st)).
+  { induction l as [|a l IH]; intros st I; cbn; [exact I|]. apply IH. apply memo_step_inv. exact I. }
+  apply G. reflexivity.
+Qed.
+
+(* one revert that forgets to clear it: set T, remove, set T again => the stock template stays in use *)
+Theorem memo_executor_refuted :
+  exists t, fst (fold_left (memo_step false) [Some t; None; Some t] (None, "")) <> Some t.
+Proof. exists "T". vm_compute. discriminate. Qed.
